@@ -137,3 +137,45 @@ func VerifC07_q_concurrentFilters() {
 	verifAssert("C07/agree-concurrent", w.agree(), "memory and store disagree")
 	verifAssert("C07/no-lock-held", w.noLockHeld(), "a lock is still held")
 }
+
+// BOUND: topologies {0,1}; a Pool object p1 of size 1..2 shared by a deployment; the pool is filled (size pods bound), one pod is deleted and its event handled, so that the pool holds size addresses one of which is in reserve; the Filter of a new pod of the deployment runs with one API-server / store call failing cleanly at a symbolic position 0..3 (0 = none); a Filter that answered with an error is retried once without fault. The pool never holds more addresses than its size
+func VerifC07_q_filterFaultKeepsSize() {
+	w := vpNewWorld(nondetChoice(2), false)
+	if err := w.configure(); err != nil {
+		return
+	}
+	w.setDeployment(3)
+	size := 1 + nondetChoice(2)
+	w.setPool("p1", size)
+	w.syncListers()
+	for i := 0; i < size; i++ {
+		name := vpPodNameOf(vpKindDp, i)
+		w.createPod(vpMakePod(name, "U"+name, vpKindDp, "", "p1", ""))
+		w.syncListers()
+		nodes, err := w.filter(name, "n1", "n2", "n3")
+		if err != nil || len(nodes) == 0 || w.bind(name, nodes[0]) != nil {
+			return
+		}
+		w.setRunning(name)
+	}
+	w.syncListers()
+	w.deletePod(vpPodNameOf(vpKindDp, 0))
+	w.syncListers()
+	for len(w.pending) > 0 {
+		_ = w.handleEvent(0)
+	}
+	verifAssume(w.poolCount("p1") == size)
+	next := vpPodNameOf(vpKindDp, 7)
+	w.createPod(vpMakePod(next, "U"+next, vpKindDp, "", "p1", ""))
+	w.syncListers()
+	w.calls, w.faultAt = 0, nondetInt(0, 3)
+	_, ferr := w.filter(next, "n1", "n2", "n3")
+	w.faultAt = 0
+	verifAssert("C07/pool-size-after-faulted-filter", w.poolCount("p1") <= size, "a Filter that hit an API failure left the sized pool with more addresses than its size")
+	if ferr != nil {
+		_, _ = w.filter(next, "n1", "n2", "n3")
+	}
+	verifReach("filter-after-fault-done")
+	verifAssert("C07/pool-size-after-retried-filter", w.poolCount("p1") <= size, "the sized pool holds more addresses than its size after a faulted Filter was retried")
+	verifAssert("C07/agree-after-faulted-filter", w.agree(), "memory and store disagree after a faulted Filter")
+}
